@@ -64,6 +64,13 @@ def run(c):
                          threads=[1, 4][k % 2] if tier == "quick" else rng.choice([1, 2, 4, 8]),
                          cfl=[0.2, 0.05][(k // 2) % 2], seed=rng.randrange(1, 10 ** 6)))
 
+    # external point-mass gravity (a source term: only the "states stay physical" clause applies).  The mass is large
+    # enough that the gravity kick on gas moving away from it exceeds the energy of a cell within one step
+    for j in range(2 if tier == "quick" else 24):
+        plan.append(dict(k=len(plan), n=[(2, 2, 2), (1, 2, 3)][j % 2], per=(0, 0, 0), gamma=gammas[(j + 2) % 4], side=(1.0, 1.0, 1.0),
+                         anchor=(0., 0., 0.), kind="contrast", threads=[1, 4][j % 2], cfl=0.2, seed=rng.randrange(1, 10 ** 6),
+                         gravity=[3.0e19, 1.0e20][j % 2]))
+
     def rjob(p):
         n, per = p["n"], p["per"]
         ncell = tuple(3 * n[i] if n[i] > 1 else 6 for i in range(3))
@@ -73,7 +80,9 @@ def run(c):
                                jitter=p["threads"] > 1, timeout=120, state_file=True,
                                side=p["side"], anchor=p["anchor"], gamma=p["gamma"], cfl=p["cfl"],
                                blocks=hydrolib.random_blocks(frng, p["side"], p["anchor"], p["kind"]),
-                               total_time=1.0e3, wall="reflective")
+                               total_time=1.0e3, wall="reflective",
+                               extra=("  external gravity: true\n\nExternalPotential:\n  type: PointMass\n"
+                                      "  position: [0.5 m, 0.5 m, 0.5 m]\n  mass: %r kg\n" % p["gravity"]) if p.get("gravity") else "")
         out = dict(p=p, rc=res["rc"], recs=None, cmd=res["cmd"], ncell=ncell)
         if res["rc"] == 0:
             states = hydrolib.read_states(os.path.join(d, "state.bin"))
@@ -90,13 +99,17 @@ def run(c):
     nsteps = 0
     for r in runs:
         p = r["p"]
-        key = "layout=%dx%dx%d per=%d%d%d gamma=%g kind=%s shape=%s" % (p["n"] + p["per"] + (p["gamma"], p["kind"], p["side"]))
+        key = "layout=%dx%dx%d per=%d%d%d gamma=%g kind=%s shape=%s%s" % (
+            tuple(p["n"]) + tuple(p["per"]) + (p["gamma"], p["kind"], p["side"], " gravity" if p.get("gravity") else ""))
         if r["rc"] != 0:
             c.violation("hydrostate:exit-%d:%s" % (r["rc"], key), "hydro run ended with status %d (%s)" % (r["rc"], key),
                         {"plan": p, "cmd": r["cmd"]})
             continue
         allper = all(p["per"])
-        recs.append({"e": "run", "periodic": 1 if allper else 0, "walls": 0 if allper else 1})
+        if p.get("gravity"):
+            recs.append({"e": "run", "periodic": 0, "walls": 0})
+        else:
+            recs.append({"e": "run", "periodic": 1 if allper else 0, "walls": 0 if allper else 1})
         index.append((len(recs), p))
         recs += r["recs"]
         nsteps += len(r["recs"])
